@@ -166,3 +166,36 @@ func VH_C05_Descriptors() {
 	c05unchanged(body, keep)
 	vrt.Reach("end")
 }
+
+// PMT payloads whose section header is well-formed (pointer_field 0, table_id 0x02) so that the
+// stream and descriptor loops are reached with arbitrary bytes: body of n symbolic bytes, the
+// section_length either consistent with the body or an arbitrary (corrupted) byte.
+func VH_C05_PMTBody() {
+	vrt.SetUnwind(300, true)
+	max := 19
+	if vrt.Tier() == 1 {
+		max = 28
+	}
+	n := vrt.Choose("bodyLen", 0, max)
+	lenMode := vrt.Choose("sectionLength", 0, 1)
+	body := make([]byte, n)
+	vrt.Bytes("body", body)
+	sl := byte(n)
+	if lenMode == 1 {
+		sl = vrt.Byte("sl")
+	}
+	b := append([]byte{0, 0x02, 0xB0, sl}, body...)
+	keep := append([]byte{}, b...)
+	p, err := NewPMT(b)
+	if err == nil && p != nil {
+		_ = p.Pids()
+		for _, es := range p.ElementaryStreams() {
+			_ = es.MaxBitRate()
+			_ = es.IsTTMLSubtitling()
+		}
+	}
+	_, _ = PmtAccumulatorDoneFunc(b)
+	_, _ = ExtractCRC(b)
+	c05unchanged(b, keep)
+	vrt.Reach("end")
+}
